@@ -1109,6 +1109,29 @@ pub fn generate(profile: &Profile, seed: u64) -> Trace {
                 }
             }
         }
+        // resynchronise-and-probe: now and then an application call that repaints the line comes
+        // right after a transient fault, so that what the fault left behind (a cached flag, a cursor
+        // the terminal never saw move) is judged by the screen oracle on the keys that follow,
+        // not only after the next Enter. Drawn last: everything above is unaffected.
+        let faulted: Vec<usize> = events
+            .iter()
+            .enumerate()
+            .filter(|(_, e)| matches!(e.ev, Ev::Rx(_)) && e.faults.iter().any(|f| f.n != 0))
+            .map(|(i, _)| i)
+            .collect();
+        for &i in faulted.iter().rev() {
+            if g.rng.chance(1, 3) {
+                for _ in 0..8 {
+                    match g.app_event(true) {
+                        Some(ev @ (Ev::Write(..) | Ev::Prompt(_))) => {
+                            events.insert(i + 1, Event::new(ev));
+                            break;
+                        }
+                        _ => {}
+                    }
+                }
+            }
+        }
     }
     Trace { cfg, events }
 }
